@@ -107,11 +107,18 @@ func c07Replay(r *an.Run) {
 					if an.Text(as.Rhs[0]) != "true" {
 						o.FailAt(f.ID+"#converted-value", w.Where(), "convertedError is set to %s", an.Text(as.Rhs[0]))
 					}
-					onlyGuards(o, f, w, []string{
+					allowed := []string{
 						`^len\([A-Za-z]+\.Reason\) == [A-Za-z]+$`, // the size test
 						`^!\(.*\)$`,                       // earlier exits not taken (hodl masks)
 						`^case \*lnwire\.UpdateFailHTLC$`, // the message kind
-					}, "the conversion mark")
+					}
+					// the continuation test of `for i := 0; i < len(list); i++` over a
+					// list the function does not write is the head of the loop, as
+					// `range list` is, not a restriction of the mark
+					for _, g := range c08IndexLoopGuards(f) {
+						allowed = append(allowed, "^"+regexpQuote(g)+"$")
+					}
+					onlyGuards(o, f, w, allowed, "the conversion mark")
 					guarded(o, f, w, an.Cmp(an.Len(canonTerm(`\.Reason$`)), an.EQ, canonTerm(`^\(?lnwire\.FailureMessageLength \+ 4\)?$`), "len(msg.Reason) == lnwire.FailureMessageLength + 4"))
 				}
 			}
